@@ -323,6 +323,17 @@ fn rviol(law: &'static str, detail: String) -> RecvOutcome {
     RecvOutcome::Violation(LawViolation { law, detail })
 }
 
+/// Offset of `cur` inside `s` for messages; address-independent ("outside" when it does not point into s).
+fn offset_in(s: &[u8], cur: &[u8]) -> String {
+    let a = s.as_ptr() as usize;
+    let c = cur.as_ptr() as usize;
+    if c >= a && c <= a + s.len() {
+        format!("{}", c - a)
+    } else {
+        "outside the input".to_string()
+    }
+}
+
 fn is_suffix(s: &[u8], r: &[u8]) -> bool {
     let s_end = s.as_ptr() as usize + s.len();
     let r_end = r.as_ptr() as usize + r.len();
@@ -357,7 +368,7 @@ fn recv_laws<T: Packet + Debug + Clone + PartialEq + Default>(s: &[u8], depth: u
                     if cur.as_ptr() != rem.as_ptr() || cur.len() != rem.len() {
                         return rviol(
                             "D1",
-                            format!("decode_mut left the cursor with {} bytes (offset {}) but decode's remainder has {} bytes (offset {}); input {}", cur.len(), (cur.as_ptr() as usize).wrapping_sub(s.as_ptr() as usize), rem.len(), s.len() - rem.len(), hexs(s)),
+                            format!("decode_mut left the cursor with {} bytes (offset {}) but decode's remainder has {} bytes (offset {}); input {}", cur.len(), offset_in(s, cur), rem.len(), offset_in(s, rem), hexs(s)),
                         );
                     }
                 }
@@ -395,7 +406,7 @@ fn recv_laws<T: Packet + Debug + Clone + PartialEq + Default>(s: &[u8], depth: u
             if cur.as_ptr() != s.as_ptr() || cur.len() != s.len() {
                 return rviol(
                     "D2",
-                    format!("decode_mut failed ({:?}) but changed the caller's slice: {} bytes at offset {} instead of the original {} bytes; input {}", e, cur.len(), (cur.as_ptr() as usize).wrapping_sub(s.as_ptr() as usize), s.len(), hexs(s)),
+                    format!("decode_mut failed ({:?}) but changed the caller's slice: {} bytes at offset {} instead of the original {} bytes; input {}", e, cur.len(), offset_in(s, cur), s.len(), hexs(s)),
                 );
             }
             match &f {
